@@ -138,6 +138,17 @@ def peptide(seq, chain="A", start=1, hydrogens=False, oxt=True, omit=(), icodes=
     return atoms
 
 
+def cap_nh2(nres, chain="A", resseq=None, start=1, origin=(0.0, 0.0, 0.0)):
+    """the amide cap NH2 (one HETATM atom N) bonded to the C of the last residue of a peptide(seq) of nres residues built with
+    the same start / origin: it sits where the next residue's N would be"""
+    fr = Frame(np.eye(3), np.array(origin, dtype=float))
+    for _ in range(nres - 1):
+        fr = next_frame(fr)
+    np1, _cm1 = _peptide_pseudo()
+    return [{"rec": "HETATM", "name": "N", "resname": "NH2", "chain": chain, "resseq": start + nres if resseq is None else resseq,
+             "icode": "", "xyz": fr(np1), "res_index": nres, "element": "N"}]
+
+
 def water(pos, chain="A", resseq=900, name="HOH"):
     return [{"rec": "HETATM", "name": "O", "resname": name, "chain": chain, "resseq": resseq, "icode": "",
              "xyz": np.array(pos, dtype=float)}]
